@@ -150,8 +150,27 @@ func (g *Gen) Email() string {
 	return fmt.Sprintf("u%d%s@%s.%s", g.serial, g.letters(g.rng(1, 6)), g.letters(g.rng(1, 10)), g.pick("com", "org", "io"))
 }
 
+// ISODate returns an ISO-8601 instant in one of the spellings MongoDB tools
+// emit or accept: Z, +00:00 (RFC 3339), +0000 (strict Extended JSON v1 /
+// mongoexport), hour-only offsets, with and without fractional seconds.
 func (g *Gen) ISODate() string {
-	return fmt.Sprintf("20%02d-%02d-%02dT%02d:%02d:%02d.%03dZ", g.rng(0, 30), g.rng(1, 12), g.rng(1, 28), g.rng(0, 23), g.rng(0, 59), g.rng(0, 59), g.rng(0, 999))
+	base := fmt.Sprintf("20%02d-%02d-%02dT%02d:%02d:%02d", g.rng(0, 30), g.rng(1, 12), g.rng(1, 28), g.rng(0, 23), g.rng(0, 59), g.rng(0, 59))
+	frac := fmt.Sprintf(".%03d", g.rng(0, 999))
+	switch g.R.Intn(12) {
+	case 0:
+		frac = ""
+	case 1:
+		frac = fmt.Sprintf(".%06d", g.rng(0, 999999))
+	}
+	switch g.R.Intn(10) {
+	case 0:
+		return base + frac + "+00:00"
+	case 1:
+		return base + frac + "+0000"
+	case 2:
+		return base + frac + g.pick("-05", "+01", "-0530", "+05:30", "-08:00")
+	}
+	return base + frac + "Z"
 }
 
 func (g *Gen) OID() string {
